@@ -572,6 +572,11 @@ where
 							}
 						}
 						output.height = o.1;
+						// a coinbase matures relative to the block it is actually in, whatever
+						// height its candidate was last requested for
+						if output.is_coinbase {
+							output.lock_height = o.1 + global::coinbase_maturity();
+						}
 						output.mark_unspent();
 					}
 					None => {
